@@ -297,6 +297,56 @@ func (la *LockAnalysis) CheckPairing(rule string, entries []*ssa.Function) {
 			if path != nil {
 				o.Path = c.P.PathString(path)
 			}
+			// a lock held across user code must be released by a defer: a panic in that code (recovered further up
+			// by the configured recovery) would otherwise leave it held for ever
+			deferred := false
+			an.AllInstrs(f, func(t ssa.Instruction) {
+				o2, isDef, ok := la.lockCall(t)
+				if ok && isDef && o2 == rel && an.AP(an.CallOf(t).Args[0]) == lockAP {
+					deferred = true
+				}
+			})
+			if !deferred {
+				g := an.NewGraph(c.P)
+				var user string
+				(&an.Query{
+					Target: func(t ssa.Instruction) bool {
+						o2, _, ok := la.lockCall(t)
+						if ok && o2 == rel {
+							return false
+						}
+						call := an.CallOf(t)
+						if call == nil {
+							return false
+						}
+						if boundaryCall(call) {
+							user = c.pos(t)
+							return true
+						}
+						if callee := an.StaticCallee(call); callee != nil && an.InModule(callee) {
+							for h := range g.Reach([]*ssa.Function{callee}, nil) {
+								found := false
+								an.AllInstrs(h, func(x ssa.Instruction) {
+									if cc := an.CallOf(x); cc != nil && boundaryCall(cc) && !found {
+										found = true
+										user = c.pos(x) + " via " + an.FuncKey(callee)
+									}
+								})
+								if found {
+									return true
+								}
+							}
+						}
+						return false
+					},
+					Block: func(t ssa.Instruction) bool {
+						o2, _, ok := la.lockCall(t)
+						return ok && o2 == rel && an.AP(an.CallOf(t).Args[0]) == lockAP
+					},
+					BlockEdge: la.prunedEdge,
+				}).Search(an.After(in))
+				c.R.Add(rule, c.fk(f), fmt.Sprintf("%s:%s/deferred-release-across-user-code", op, lockAP), c.pos(in), user == "", ifelse(user == "", "no user-supplied function runs between the acquisition and its explicit release", "the lock is released explicitly, not by defer, but user-supplied code runs while it is held ("+user+"): if that code panics the lock stays held and every later operation on the router blocks"))
+			}
 			if reached[f] {
 				held := la.state[f][in]
 				if heldIn[f] > held {
@@ -427,4 +477,16 @@ func sharedTreeFields(c *Ctx) map[string]bool {
 		})
 	}
 	return shared
+}
+
+// boundaryCall: a call of a user-supplied function value or of an interface method implemented outside the module.
+func boundaryCall(call *ssa.CallCommon) bool {
+	if call.IsInvoke() {
+		return true
+	}
+	switch call.Value.(type) {
+	case *ssa.Function, *ssa.Builtin, *ssa.MakeClosure:
+		return false
+	}
+	return true
 }
